@@ -524,5 +524,9 @@ def check_C13(chk):
     # decoders / writer are exact (C15.a/d)
     import rules_panic as RP13_
     chk.borrow(lambda: (RIO_.c07c(chk), RIO_.c07f(chk), RP13_.precision_bound(chk, "C17.f"), RIO_.c15a(chk), RIO_.c15d(chk)), "C13.h", 30)
+    # .. the text reader takes the whole body of what the previous invocation wrote (C16.d), and `--project-individuals i` means the shape
+    # 2i+1 per requested value in `view` as in `create` (C02.c)
+    import rules_create as RC13_
+    chk.borrow(lambda: (RIO_.c16d(chk), RC13_.affine_siblings(chk, "C02.c")), "C13.i", 5)
     for r, n in (("C13.a", 12), ("C13.b", 9), ("C13.c", 2), ("C13.d", 2), ("C13.e", 2)):
         chk.floor(r, n)
